@@ -3,7 +3,7 @@
    Proofs: Proofs/Round8Proofs.v, MetricsProofs.v, JournalProofs.v, BrokerJournalProofs.v. *)
 From Coq Require Import List NArith ZArith Bool.
 From Snow Require Import Lib.Wire Model.Round8 Model.Metrics Model.Journal Model.BrokerJournal.
-From Snow Require Import Proofs.Round8Proofs Proofs.MetricsProofs Proofs.JournalProofs Proofs.BrokerJournalProofs.
+From Snow Require Import Proofs.Round8Proofs Proofs.MetricsProofs Proofs.MetricsGeoProofs Proofs.JournalProofs Proofs.BrokerJournalProofs.
 Import ListNotations.
 
 (* ---- binCount (float64 exact below 2^53: stated limitation, floats are not modelled) ---- *)
@@ -63,6 +63,16 @@ Proof. cbv zeta. split; [|split; reflexivity]. intro j. destruct j as [|[|j]]; r
 Example C19_inc_conc_nonvacuous : observer (runr [0;0;0;0;0]%nat initr) = Some 8%N.
 Proof. reflexivity. Qed.
 
+(* the [sched] runner op (executed against the real roundedCounter under the same forced lock order) prints from
+   [runr_trace]: its n-th state IS [runr] of the first n+1 schedule entries, the machine of the theorems above *)
+Theorem C19_inc_sched_states : forall (sched : list nat) (s : str) (n : nat), (n < List.length sched)%nat ->
+  nth_error (runr_trace sched s) n = Some (runr (firstn (S n) sched) s).
+Proof. exact runr_trace_nth. Qed.
+Example C19_inc_sched_example :
+  map observer (runr_trace [0;1;0;0;1;0;0;1;1]%nat initr) =
+  [None; None; None; None; None; None; Some 8%N; None; None].
+Proof. reflexivity. Qed.
+
 (* ---- broker counters: every figure of printMetrics and of the rounded prometheus counters ---- *)
 Theorem C19_counts : forall (g : bool) (ops : list op),
   (forall e, r_ev (print (exec ops (minit g))) e = bin (count_ev e (flat_map log_events (since_zero ops)))) /\
@@ -81,6 +91,40 @@ Theorem C19_unique_sets : forall (g : bool) (ops : list op) (u : N),
   NoDup (tsets (exec ops (minit g)) u) /\
   (forall a, In a (tsets (exec ops (minit g)) u) <-> In a (flat_map (polled u) (since_zero ops))).
 Proof. exact unique_sets. Qed.
+
+(* NAT-type figures (snowflake-ips-nat-restricted / -unrestricted / -unknown; NOT binned by the code or the spec):
+   the number of distinct addresses whose FIRST accepted poll of the period under some proxy type (the only poll
+   UpdateCountryStats looks at) reported that NAT type; all three are 0 without a geoip database *)
+Theorem C19_nat_buckets : forall (g : bool) (ops : list op),
+  let s := exec ops (minit g) in let r := print s in let P := since_zero ops in
+  (r_natr r = N.of_nat (List.length (nat_r s)) /\ NoDup (nat_r s) /\
+   forall a, In a (nat_r s) <-> g = true /\ exists u c, first_poll u a P = Some (1%N, c)) /\
+  (r_natu r = N.of_nat (List.length (nat_u s)) /\ NoDup (nat_u s) /\
+   forall a, In a (nat_u s) <-> g = true /\ exists u c, first_poll u a P = Some (2%N, c)) /\
+  (r_natk r = N.of_nat (List.length (nat_k s)) /\ NoDup (nat_k s) /\
+   forall a, In a (nat_k s) <-> g = true /\ exists u n c, first_poll u a P = Some (n, c) /\ n <> 1%N /\ n <> 2%N).
+Proof. exact printed_nat. Qed.
+
+(* country figures (snowflake-ips CC=NUM; not binned either): every country appears once, never with 0, and NUM is,
+   summed over the five type classes, the number of distinct addresses of the class (the per-type sets of
+   C19_unique_sets) whose first accepted poll of the period resolved to CC *)
+Theorem C19_countries : forall (g : bool) (ops : list op),
+  let s := exec ops (minit g) in let r := print s in let P := since_zero ops in
+  NoDup (map fst (r_cc r)) /\ (forall kv, In kv (r_cc r) -> (0 < snd kv)%N) /\
+  (forall u, NoDup (tsets s u) /\ forall a, In a (tsets s u) <-> In a (flat_map (polled u) P)) /\
+  forall c, aget 0%N c (r_cc r) = if g then ccsum c P (tsets s) else 0%N.
+Proof. exact printed_countries. Qed.
+
+(* address 65 polls as standalone (restricted, US) and as webext (unrestricted, US), address 66 as standalone
+   (unknown NAT, CA), then 65 again as standalone with another NAT type: US=2, CA=1; 65 is in the restricted and in
+   the unrestricted set, 66 in the unknown one; the repeat changes nothing *)
+Example C19_nat_countries_example :
+  let ops := [ProxyPoll (Some ([65%N], [85%N; 83%N])) 0 1 true Idle; ProxyPoll (Some ([65%N], [85%N; 83%N])) 1 2 true Matched;
+              ProxyPoll (Some ([66%N], [67%N; 65%N])) 0 0 false Idle; ProxyPoll (Some ([65%N], [85%N; 83%N])) 0 2 true Idle] in
+  let r := print (exec ops (minit true)) in
+  r_cc r = [([85%N; 83%N], 2%N); ([67%N; 65%N], 1%N)] /\ r_natr r = 1%N /\ r_natu r = 1%N /\ r_natk r = 1%N /\
+  first_poll 0 [65%N] ops = Some (1%N, [85%N; 83%N]) /\ ccsum [85%N; 83%N] ops (tsets (exec ops (minit true))) = 2%N.
+Proof. cbv zeta. repeat split; reflexivity. Qed.
 
 (* the k-th report of a run is [print] of the state reached by the ops before the k-th Print *)
 Theorem C19_reports : forall (pre post : list op) (g : bool),
@@ -134,6 +178,83 @@ Example C19_journal_example :
       (w_out (jrun N N (fun x => x) N.eqb [Add 1%Z 5%N; Add 7%Z 6%N; Flush 9%Z; Add 9%Z 5%N] (new_writer 0%Z 3%Z)))
   = [(0%Z, 7%Z, [5%N]); (7%Z, 9%Z, [6%N])].
 Proof. reflexivity. Qed.
+
+(* ---- a journal sink that fails (Write error with nothing / part of the line / the whole text without the newline /
+   the whole line written, Sync error), in any pattern ---- *)
+(* Every chunk that can be read back from the file holds exactly the masked addresses of some recorded events, and its
+   recording span [c_start, c_end] CONTAINS the instant of every one of them - so "inside the window" in C19_window
+   still means "recorded inside the window".  The open sketch holds events no older than the last write the writer
+   took for successful.  While no line of the file is damaged, no recorded event is lost. *)
+Theorem C19_journal_failed_writes :
+  forall (addr hash : Type) (mask : addr -> hash) (heqb : hash -> hash -> bool) (t0 interval : Z) (plan : list wres)
+         (ops : list (jop addr)),
+  mono addr t0 ops ->
+  let w := fjrun addr hash mask heqb ops (fnew t0 interval plan) in
+  let evs := flat_map (op_events addr) ops in
+  (forall c, In (Some c) (file_of w) ->
+     exists seg, c_sk c = sk_of hash heqb (masks addr hash mask seg) /\ (c_start c <= c_end c)%Z /\
+                 Forall (fun e => (c_start c <= fst e <= c_end c)%Z) seg /\ incl seg evs) /\
+  (exists open, f_cur w = sk_of hash heqb (masks addr hash mask open) /\ Forall (fun e => (f_last w <= fst e)%Z) open /\
+     incl open evs /\
+     (readable (f_lines w) = true ->
+      forall e, In e evs -> In e open \/
+        exists c seg, In (Some c) (f_lines w) /\ c_sk c = sk_of hash heqb (masks addr hash mask seg) /\ In e seg /\
+                      (c_start c <= fst e <= c_end c)%Z)).
+Proof. exact failed_writes. Qed.
+
+(* a sink that never fails: the failing-sink writer is the writer of C19_journal_partition, line for line *)
+Theorem C19_journal_never_failing_sink :
+  forall (addr hash : Type) (mask : addr -> hash) (heqb : hash -> hash -> bool) (t0 interval : Z) (ops : list (jop addr)),
+  let w := jrun addr hash mask heqb ops (new_writer t0 interval) in
+  let fw := fjrun addr hash mask heqb ops (fnew t0 interval []) in
+  file_of fw = map Some (w_out w) /\ f_cur fw = w_cur w /\ f_last fw = w_last w /\
+  forall from to, fcount hash heqb from to (file_of fw) = Some (count hash heqb from to (w_out w)).
+Proof. exact never_failing_sink. Qed.
+
+(* the reader answers only when every line parses, and then with the window count of the chunks (C19_window) *)
+Theorem C19_journal_reader :
+  forall (hash : Type) (heqb : hash -> hash -> bool) (from to : Z) (f : list (option (chunk hash))) (r : N * N),
+  fcount hash heqb from to f = Some r <-> readable f = true /\ r = count hash heqb from to (good_lines f).
+Proof. exact fcount_spec. Qed.
+
+(* the broker's journal with a failing sink: the metrics never notice, and the statement above holds with "recorded
+   event" = "accepted poll" *)
+Theorem C19_journal_failed_writes_broker :
+  forall (hash : Type) (mask : bytes -> hash) (heqb : hash -> hash -> bool) (g : bool) (t0 k : Z) (plan : list wres) (ops : list bop),
+  bmono t0 ops ->
+  let s := bfrun hash mask heqb ops (bfinit hash g t0 k plan) in
+  let polls := flat_map accepted ops in
+  bf_m s = exec (flat_map mop_of ops) (minit g) /\
+  (forall c, In (Some c) (file_of (bf_w s)) ->
+     exists seg, c_sk c = sk_of hash heqb (masks bytes hash mask seg) /\ (c_start c <= c_end c)%Z /\
+                 Forall (fun e => (c_start c <= fst e <= c_end c)%Z) seg /\ incl seg polls) /\
+  (exists open, f_cur (bf_w s) = sk_of hash heqb (masks bytes hash mask open) /\
+     Forall (fun e => (f_last (bf_w s) <= fst e)%Z) open /\ incl open polls /\
+     (readable (f_lines (bf_w s)) = true ->
+      forall e, In e polls -> In e open \/
+        exists c seg, In (Some c) (f_lines (bf_w s)) /\ c_sk c = sk_of hash heqb (masks bytes hash mask seg) /\ In e seg /\
+                      (c_start c <= fst e <= c_end c)%Z)).
+Proof. exact failed_writes_broker. Qed.
+
+(* interval 3; the auto-flushes at 5 and at 6 fail with nothing written, the flush at 9 succeeds: ONE chunk [0,9] with all three
+   addresses - the span still starts at the last successful write, not at the failed one *)
+Example C19_journal_failed_write_example :
+  let ops := [Add 1%Z 5%N; Add 5%Z 6%N; Add 6%Z 7%N; Flush 9%Z] in
+  mono N 0%Z ops /\
+  map (option_map (fun c => (c_start c, c_end c, c_sk c))) (file_of (fjrun N N (fun x => x) N.eqb ops (fnew 0%Z 3%Z [WNone; WNone]))) =
+    [Some (0%Z, 9%Z, [5%N; 6%N; 7%N])] /\
+  fcount N N.eqb 0%Z 9%Z (file_of (fjrun N N (fun x => x) N.eqb ops (fnew 0%Z 3%Z [WNone; WNone]))) = Some (3%N, 1%N).
+Proof. cbv zeta. split; [cbn; repeat split; discriminate | split; reflexivity]. Qed.
+
+(* FINDING (robustness, not a count error): ONE short write leaves an unterminated rest in the file; the next line is
+   appended behind it and the two form a line that does not parse; ClusterCounter.Count then fails for EVERY window,
+   including windows that hold only intact chunks *)
+Example C19_journal_short_write_blinds_reader :
+  let ops := [Add 1%Z 5%N; Flush 2%Z; Add 3%Z 6%N; Flush 4%Z; Add 5%Z 7%N; Flush 6%Z] in
+  let f := file_of (fjrun N N (fun x => x) N.eqb ops (fnew 0%Z 100%Z [WOk; WTorn; WOk])) in
+  map (option_map (fun c => (c_start c, c_end c))) f = [Some (0%Z, 2%Z); None] /\
+  fcount N N.eqb 0%Z 2%Z f = None /\ fcount N N.eqb 0%Z 6%Z f = None.
+Proof. cbv zeta. repeat split; reflexivity. Qed.
 
 (* ---- the journal behind the broker: the call site (ProxyPolls -> RecordIPAddress) ---- *)
 (* A broker history = IPC/metrics ops with the writer's clock reading, and explicit flushes.  The metrics component
